@@ -54,6 +54,9 @@ def exception_origin(exc):
     injected fault, else 'harness'."""
     if isinstance(exc, gate.InjectedFault):
         return "gate"
+    if isinstance(exc, (TypeError, ValueError)) and ("is not JSON serializable" in str(exc) or "Out of range float values" in str(exc)):
+        # json.dumps of a document the library produced: the document is at fault, not the harness
+        return "library"
     tb = traceback.extract_tb(exc.__traceback__)
     for fr in tb:
         if os.path.realpath(fr.filename).startswith(_LIBDIR):
@@ -65,6 +68,8 @@ def exc_site(exc):
     """(primitive-ish module name, function) of the innermost library frame."""
     tb = traceback.extract_tb(exc.__traceback__)
     site = None
+    if "JSON serializable" in str(exc) or "Out of range float values" in str(exc):
+        return ("toJson", "strict-json")
     for fr in tb:
         fn = os.path.realpath(fr.filename)
         if fn.startswith(_LIBDIR):
